@@ -86,6 +86,7 @@ type ledgerSim struct {
 // validator 0 holds more than 2/3 of the power, always signs and is never touched by the generated operations, so
 // that a block that cannot be committed is a ledger problem and not a lost quorum
 var wrapGenesis = false // total supply within a few block mints of 2^64
+var genesisVariant = 0  // parameter variants of the ledger genesis (see ledgerGenesis)
 var protocolV2 = false  // committee scoped slashing with a per-block cap (protocol version 2)
 
 func ledgerGenesis(big64, empty bool) GenesisSpec {
@@ -109,6 +110,19 @@ func ledgerGenesis(big64, empty bool) GenesisSpec {
 		}}
 	if empty {
 		gs.Stakes = []uint64{1000000, 0, 0, 0, 0, 0}
+	}
+	if genesisVariant == 1 { // a minimum stake that a slash can push a validator below (it is then forced to unstake)
+		base := gs.Params
+		gs.Params = func(p *fsm.Params) { base(p); p.Validator.MinimumStakeForValidators = 2 }
+	}
+	if genesisVariant == 2 { // no limit on delegates (0) while the committee itself is small: three delegates for chain 1
+		base := gs.Params
+		gs.Params = func(p *fsm.Params) {
+			base(p)
+			p.Validator.MaximumDelegatesPerCommittee = 0
+			p.Validator.MaxCommitteeSize = 2
+		}
+		gs.Delegate = []bool{false, true, true, true, false, false}
 	}
 	if protocolV2 {
 		base := gs.Params
@@ -193,6 +207,34 @@ func (s *ledgerSim) history(sc *Scan, rng *rand.Rand) {
 	}
 	for _, chain := range []uint64{1, 2} {
 		s.hist[fmt.Sprintf("%d/%d", chain, sc.Height)] = snap(chain, sc.Height)
+	}
+	// what nested chains are told (root chain info, "latest" = height 0): the committee of the current height and, as the
+	// previous committee, the one of the height before - the same sets an explicit query for those heights answers
+	fmtSet := func(vs lib.ValidatorSet) string {
+		out := fmt.Sprintf("T%d/M%d", vs.TotalPower, vs.MinimumMaj23)
+		if vs.ValidatorSet != nil {
+			for _, m := range vs.ValidatorSet.ValidatorSet {
+				out += fmt.Sprintf("|%x:%d", m.PublicKey[:4], m.VotingPower)
+			}
+		}
+		return out
+	}
+	if sc.Height > 2 && s.n.scanFSM == nil {
+		for _, chain := range []uint64{1, 2} {
+			info, err := s.n.c.FSM.LoadRootChainInfo(chain, 0)
+			if err != nil || info == nil {
+				continue // no committee for that chain
+			}
+			sc.HistChecked++
+			cur, e1 := lib.NewValidatorSet(info.ValidatorSet)
+			prev, e2 := lib.NewValidatorSet(info.LastValidatorSet)
+			if e1 != nil || e2 != nil {
+				continue
+			}
+			if fmtSet(cur) != snap(chain, info.Height) || fmtSet(prev) != snap(chain, info.Height-1) {
+				sc.HistOK = false
+			}
+		}
 	}
 }
 
@@ -364,7 +406,15 @@ func (s *ledgerSim) block(b BlockSpec, note string) (ok bool) {
 		}
 		p.results.RewardRecipients = &lib.RewardRecipients{PaymentPercents: pp}
 	}
+	var dblSign []int
 	for _, i := range b.DblSign {
+		// a delegate signs nothing, so no evidence can name it: a certificate of an honest quorum never orders its slash
+		if v, e := n.c.FSM.GetValidator(n.valKeys[i].PublicKey().Address()); e == nil && v.Delegate {
+			continue
+		}
+		dblSign = append(dblSign, i)
+	}
+	for _, i := range dblSign {
 		if p.results.SlashRecipients == nil {
 			p.results.SlashRecipients = &lib.SlashRecipients{}
 		}
@@ -430,7 +480,7 @@ func (s *ledgerSim) block(b BlockSpec, note string) (ok bool) {
 		line.DblSign = append(line.DblSign, d)
 	}
 	s.pendingDbl = nil
-	for _, i := range b.DblSign {
+	for _, i := range dblSign {
 		name := addrName(n.names, n.valKeys[i].PublicKey().Address().Bytes())
 		existed := false
 		for _, v := range sc.Vals {
@@ -537,6 +587,10 @@ func ledgerRandom(seed int64, runs, blocks int, big64 bool, out *json.Encoder) e
 	rng := rand.New(rand.NewSource(seed))
 	for r := 0; r < runs; r++ {
 		protocolV2 = !big64 && r%3 == 2
+		genesisVariant = 0
+		if !big64 && r%3 != 2 {
+			genesisVariant = (r / 3) % 3
+		}
 		s, err := newLedgerSim(r, out, big64, false)
 		if err == nil {
 			s.rng = rand.New(rand.NewSource(seed + int64(r)))
